@@ -33,6 +33,10 @@ UNITS = {
                files=['searchlite-core/src/query/aggs/mod.rs'],
                bounded={'k10_percentile_exact_len0': 'no values', 'k10_percentile_exact_len1': 'one value', 'k10_percentile_exact_len2': 'two finite values (any percent bit pattern)'},
                assumes=['values are finite floats; the t-digest path (more than 256 values) is not harnessed']),
+    'K11': dict(crate='searchlite-core', prefixes=['k11_'], title='cursor text layer: hex_encode / from_str_radix agree on every byte value; SortValue <-> CursorValue round trip',
+               files=['searchlite-core/src/api/reader.rs'],
+               bounded={},
+               assumes=['String sort values (CursorValue::Str) are not executed under CBMC; that the encode/decode loops apply the per-byte step to every byte is U9 (Verus)']),
     'K5': dict(crate='searchlite-ffi', prefixes=['k5_'], title='tail of searchlite_search: output-buffer guard, bounded copy, NUL terminator',
                files=['searchlite-ffi/src/lib.rs'],
                bounded={'k5_copy_stays_in_buffer': 'response length <= N and buf_cap <= N+2 with N = 32 in the quick tier, N = 256 in the thorough tier (all byte values)'},
